@@ -396,6 +396,7 @@ func run(b *harness.B) {
 		checkGolden(b)
 		checkHighLeafIndex(b, b.SubRng("highleaf"))
 		checkDirected(b, b.SubRng("directed"))
+		checkReusedBlock(b, b.SubRng("reused-block"))
 	}
 	// reference hashes (all batches, cheap)
 	if p := safely(func() { checkHashes(b, b.SubRng("hashes"), b.Pick(30, 2000)) }); p != "" {
